@@ -159,3 +159,227 @@ Proof.
   apply ascii_digit_range in D1, D2, D3. repeat (split; [assumption|]).
   rewrite Hv. fold (enc_before bs mt b0). fold before. now rewrite sum_codes_byte_sum.
 Qed.
+
+(* ------------------------------------------------------------------ bytes in, bytes out *)
+
+Definition str_bytes (s : str) : bool := forallb is_byte s.
+
+Fixpoint value_bytes (v : value) : bool :=
+  match v with
+  | VStr s => str_bytes s
+  | VErr => true
+  | VGrp items =>
+      forallb (forallb (fun kv : str * value => let (k, w) := kv in str_bytes k && value_bytes w)) items
+  end.
+
+Definition container_bytes (c : container) : bool :=
+  forallb (fun kv : str * value => let (k, w) := kv in str_bytes k && value_bytes w) c.
+
+(* every piece of text the caller supplies is single-byte text (code points < 256) *)
+Definition inputs_bytes (bs : str) (m : message) (sess : session) (t : str) : bool :=
+  str_bytes bs && str_bytes (msg_type m) && str_bytes (sender sess) && str_bytes (target sess)
+  && str_bytes t && container_bytes (msg_tags m).
+
+Section value_ind2.
+  Variable P : value -> Prop.
+  Hypothesis HS : forall s, P (VStr s).
+  Hypothesis HE : P VErr.
+  Hypothesis HG : forall items, Forall (Forall (fun kv : str * value => P (snd kv))) items -> P (VGrp items).
+  Fixpoint value_ind2 (v : value) : P v :=
+    match v with
+    | VStr s => HS s
+    | VErr => HE
+    | VGrp items =>
+        HG items
+          ((fix go (its : list (list (str * value))) : Forall (Forall (fun kv => P (snd kv))) its :=
+              match its with
+              | [] => Forall_nil _
+              | it :: r =>
+                  Forall_cons it
+                    ((fix go2 (it : list (str * value)) : Forall (fun kv => P (snd kv)) it :=
+                        match it with
+                        | [] => Forall_nil _
+                        | kv :: r2 => Forall_cons kv (value_ind2 (snd kv)) (go2 r2)
+                        end) it)
+                    (go r)
+              end) items)
+    end.
+End value_ind2.
+
+Lemma str_bytes_app a b : str_bytes (a ++ b) = str_bytes a && str_bytes b.
+Proof. apply forallb_app. Qed.
+
+Lemma digits_bytes ds : forallb ascii_digit ds = true -> str_bytes ds = true.
+Proof.
+  unfold str_bytes. rewrite !forallb_forall. intros H c Hc. specialize (H c Hc).
+  apply ascii_digit_range in H. unfold is_byte. apply N.ltb_lt. lia.
+Qed.
+
+Lemma n_to_dec_bytes n : str_bytes (n_to_dec n) = true.
+Proof. apply digits_bytes. apply n_to_dec_spec. Qed.
+
+Lemma z_to_dec_bytes z : str_bytes (z_to_dec z) = true.
+Proof.
+  destruct z as [|p|p]; cbn [z_to_dec]; [reflexivity|apply n_to_dec_bytes|].
+  change (45 :: n_to_dec (N.pos p)) with ([45] ++ n_to_dec (N.pos p)).
+  rewrite str_bytes_app, n_to_dec_bytes. reflexivity.
+Qed.
+
+Lemma field_bytes t v : str_bytes t = true -> str_bytes v = true -> str_bytes (field t v) = true.
+Proof.
+  intros A B. unfold field. change (61 :: v) with ([61] ++ v). now rewrite !str_bytes_app, A, B.
+Qed.
+
+Lemma join_bytes ps : Forall (fun f => str_bytes f = true) ps -> str_bytes (join SOHs ps) = true.
+Proof.
+  induction 1 as [|p ps Hp Hps IH]; [reflexivity|].
+  destruct ps as [|p' ps]; [exact Hp|].
+  rewrite join_cons by discriminate. now rewrite !str_bytes_app, Hp, IH.
+Qed.
+
+Definition all_bytes (fs : list str) : Prop := Forall (fun f => str_bytes f = true) fs.
+
+Lemma render_value_bytes v : forall t fs,
+  render_value t v = Ok fs -> str_bytes t = true -> value_bytes v = true -> all_bytes fs.
+Proof.
+  induction v as [s| |items IH] using value_ind2; intros t fs H Ht Hv.
+  - cbn in H. inversion H. subst. constructor; [|constructor]. now apply field_bytes.
+  - discriminate.
+  - cbn [render_value] in H. cbn [value_bytes] in Hv.
+    match type of H with
+    | bind (?F items) _ = _ => set (items_go := F) in *
+    end.
+    assert (Hgo : forall its fs', Forall (Forall (fun kv : str * value => forall t fs,
+                     render_value t (snd kv) = Ok fs -> str_bytes t = true ->
+                     value_bytes (snd kv) = true -> all_bytes fs)) its ->
+                   forallb (forallb (fun kv : str * value => let (k, w) := kv in str_bytes k && value_bytes w)) its = true ->
+                   items_go its = Ok fs' -> all_bytes fs').
+    { clear. induction its as [|it its IHits]; intros fs' HF Hb Hr.
+      - cbn in Hr. inversion Hr. constructor.
+      - inversion HF as [|? ? HFit HFits]. subst. cbn [forallb] in Hb.
+        apply andb_true_iff in Hb. destruct Hb as [Hbit Hbits].
+        unfold items_go in Hr. cbn [bind] in Hr. fold items_go in Hr.
+        match type of Hr with
+        | bind (?F it) _ = _ => set (item_go := F) in *
+        end.
+        assert (Hit : forall it fs'', Forall (fun kv : str * value => forall t fs,
+                     render_value t (snd kv) = Ok fs -> str_bytes t = true ->
+                     value_bytes (snd kv) = true -> all_bytes fs) it ->
+                   forallb (fun kv : str * value => let (k, w) := kv in str_bytes k && value_bytes w) it = true ->
+                   item_go it = Ok fs'' -> all_bytes fs'').
+        { clear. induction it as [|[k w] it IHit]; intros fs'' HF Hb Hr.
+          - cbn in Hr. inversion Hr. constructor.
+          - inversion HF as [|? ? HFk HFit]. subst. cbn [forallb] in Hb.
+            rewrite !andb_true_iff in Hb. destruct Hb as [[Hk Hw] Hbit].
+            unfold item_go in Hr. fold item_go in Hr.
+            destruct (render_value k w) as [a|] eqn:Ea; [|discriminate]. cbn [bind] in Hr.
+            destruct (item_go it) as [b|] eqn:Eb; [|discriminate]. cbn [bind] in Hr.
+            inversion Hr. subst. apply Forall_app. split.
+            + exact (HFk k a Ea Hk Hw).
+            + exact (IHit b HFit Hbit eq_refl). }
+        destruct (item_go it) as [a|] eqn:Ea; [|discriminate]. cbn [bind] in Hr.
+        destruct (items_go its) as [b|] eqn:Eb; [|discriminate]. cbn [bind] in Hr.
+        inversion Hr. subst. apply Forall_app. split.
+        + exact (Hit it a HFit Hbit Ea).
+        + exact (IHits b HFits Hbits eq_refl). }
+    destruct (items_go items) as [fs'|] eqn:Eg; [|discriminate]. cbn [bind] in H.
+    inversion H. subst. constructor.
+    + apply field_bytes; [exact Ht|apply n_to_dec_bytes].
+    + exact (Hgo items fs' IH Hv Eg).
+Qed.
+
+Lemma render_body_bytes c : forall fs,
+  render_body c = Ok fs -> container_bytes c = true -> all_bytes fs.
+Proof.
+  induction c as [|[k w] c IH]; intros fs H Hb.
+  - cbn in H. inversion H. constructor.
+  - cbn [render_body] in H. unfold container_bytes in Hb. cbn [forallb] in Hb.
+    rewrite !andb_true_iff in Hb. destruct Hb as [[Hk Hw] Hc].
+    destruct (mem_str k skip_tags); [now apply IH|].
+    destruct (render_value k w) as [a|] eqn:Ea; [|discriminate]. cbn [bind] in H.
+    destruct (render_body c) as [b|] eqn:Eb; [|discriminate]. cbn [bind] in H.
+    inversion H. subst. apply Forall_app. split.
+    + exact (render_value_bytes w k a Ea Hk Hw).
+    + exact (IH b eq_refl Hc).
+Qed.
+
+Lemma seq_of_msg_dec c z : seq_of_msg c = Ok z -> str_bytes (z_to_dec z) = true.
+Proof. intros _. apply z_to_dec_bytes. Qed.
+
+Lemma select_seq_bytes m sess raw seq s' :
+  select_seq m sess raw = Ok (seq, s') -> str_bytes seq = true.
+Proof.
+  unfold select_seq. intros H.
+  repeat match type of H with
+  | (if ?b then _ else _) = _ => destruct b
+  | bind ?r _ = _ => destruct r; cbn [bind] in H
+  | Exc _ = Ok _ => discriminate
+  | Ok (?a, _) = Ok (_, _) => inversion H; subst; apply z_to_dec_bytes
+  end.
+Qed.
+
+Lemma encode_bytes bs m sess t raw frame sess' :
+  encode bs m sess t raw = Ok (frame, sess') ->
+  inputs_bytes bs m sess t = true -> forallb is_byte frame = true.
+Proof.
+  unfold encode, inputs_bytes. rewrite !andb_true_iff.
+  intros H [[[[[Hbs Hmt] Hsn] Htg] Ht] Hc].
+  destruct (select_seq m sess raw) as [[seq s']|e] eqn:Es; [|discriminate].
+  apply select_seq_bytes in Es.
+  cbn [bind] in H. destruct (render_body (msg_tags m)) as [rest|e] eqn:Er; [|discriminate].
+  apply render_body_bytes in Er; [|exact Hc].
+  cbn [bind] in H.
+  apply (f_equal (fun r => match r with Ok (f, _) => f | Exc _ => [] end)) in H.
+  cbv beta iota zeta in H. rewrite <- H. clear H.
+  assert (T : forall s, str_bytes s = true -> forallb is_byte s = true) by auto.
+  assert (Hb0 : str_bytes (join SOHs (field T49 (sender sess) :: field T56 (target sess)
+                  :: field T34 seq :: field T52 t :: rest) ++ SOHs) = true).
+  { rewrite str_bytes_app. rewrite join_bytes; [reflexivity|].
+    repeat (constructor; [apply field_bytes; auto; reflexivity|]). exact Er. }
+  set (b := join SOHs _ ++ SOHs) in *.
+  assert (Hhd : str_bytes (join SOHs [field T8 bs; field T9 (n_to_dec (N.of_nat
+                   (length b + length (field T35 (msg_type m)) + 1))); field T35 (msg_type m)]
+                 ++ SOHs ++ b) = true).
+  { rewrite !str_bytes_app, Hb0. rewrite join_bytes; [reflexivity|].
+    repeat (constructor; [apply field_bytes; auto using n_to_dec_bytes; reflexivity|]). constructor. }
+  set (fixmsg := join SOHs _ ++ SOHs ++ b) in *.
+  apply T. rewrite !str_bytes_app, Hhd. cbn [andb].
+  assert (Hck : checksum fixmsg < 256) by (apply N.mod_lt; lia).
+  destruct (fmt03_spec _ Hck) as (d1 & d2 & d3 & E3 & D1 & D2 & D3 & _).
+  rewrite field_bytes; [reflexivity|reflexivity|].
+  apply digits_bytes. rewrite E3. cbn [forallb]. now rewrite D1, D2, D3.
+Qed.
+
+(* C02, full strength: single-byte inputs, a proper BeginString and a non-empty MsgType give a
+   frame that is representable (wire = Some) and well formed. *)
+Lemma encode_well_framed bs m sess t raw frame sess' :
+  encode bs m sess t raw = Ok (frame, sess') ->
+  nonempty bs = true -> soh_free bs = true -> starts_printable (msg_type m) = true ->
+  inputs_bytes bs m sess t = true ->
+  exists w, wire frame = Some w /\ well_framedb w = true.
+Proof.
+  intros He Hbs Hsoh Hmt Hin. pose proof (encode_bytes _ _ _ _ _ _ _ He Hin) as Hb.
+  exists frame. split.
+  - unfold wire, latin1. unfold is_byte in Hb. now rewrite Hb.
+  - now apply (encode_well_framed_bytes bs m sess t raw frame sess').
+Qed.
+
+(* the refusal: text that is not single-byte is never put on the wire *)
+Lemma wire_refuses frame : forallb is_byte frame = false -> wire frame = None.
+Proof. unfold wire, latin1, is_byte. intros ->. reflexivity. Qed.
+
+Lemma wire_some frame w : wire frame = Some w -> w = frame /\ forallb is_byte frame = true.
+Proof.
+  unfold wire, latin1, is_byte. destruct (forallb _ frame); [|discriminate].
+  intros H. inversion H. auto.
+Qed.
+
+(* whatever reaches the transport is well formed *)
+Lemma wire_well_framed bs m sess t raw frame sess' w :
+  encode bs m sess t raw = Ok (frame, sess') ->
+  nonempty bs = true -> soh_free bs = true -> starts_printable (msg_type m) = true ->
+  wire frame = Some w -> well_framedb w = true.
+Proof.
+  intros He Hbs Hsoh Hmt Hw. apply wire_some in Hw. destruct Hw as [-> Hb].
+  now apply (encode_well_framed_bytes bs m sess t raw frame sess').
+Qed.
